@@ -500,6 +500,171 @@ theorem entryLeaves_eval (hL : L.Round) {n0 : Nat} {bk bv : Basic} : ∀ es : Va
       simp only [Res.bind_ok, hv', hys]
   | _ => intro ht; simp [entriesHaveType] at ht
 
+/-! ## Statements against a known frame -/
+
+theorem setField_eval {e : G τ} {n n1 i a : Nat} {v' fs fs' : Val} {keys : List (Nat × Val)}
+    (h1 : evalE env L e n = .ok (v', n1)) (h2 : setNth i v' fs = some fs') :
+    evalStmt env L (.setField i true e) ⟨.ptr a (.struct fs), keys⟩ n
+      = .ok (⟨.ptr a (.struct fs'), keys⟩, n1) := by
+  rw [evalStmt.eq_7]; simp [h1, h2]
+
+theorem setDeref_eval {e : G τ} {n n1 a : Nat} {v' old : Val} {keys : List (Nat × Val)}
+    (h1 : evalE env L e n = .ok (v', n1)) :
+    evalStmt env L (.setDeref e) ⟨.ptr a old, keys⟩ n = .ok (⟨.ptr a v', keys⟩, n1) := by
+  rw [evalStmt.eq_8]; simp [h1]
+
+/-- the two containers `this[i] = e` writes into -/
+inductive SeqWrap : (Val → Val) → Prop where
+  | slice (a sp : Nat) : SeqWrap (fun es => .slice a sp es)
+  | arr : SeqWrap (fun es => .arr es)
+
+theorem setIndex_eval {W : Val → Val} (hW : SeqWrap W) {e : G τ} {n n1 i : Nat} {v' es es' : Val}
+    {keys : List (Nat × Val)} (h1 : evalE env L e n = .ok (v', n1)) (h2 : setNth i v' es = some es') :
+    evalStmt env L (.setIndex i e) ⟨W es, keys⟩ n = .ok (⟨W es', keys⟩, n1) := by
+  cases hW <;> (rw [evalStmt.eq_9]; simp [h1, h2])
+
+theorem call_eval {T : Ty} {body : G τ} {n : Nat} :
+    evalE env L (.call T body) n = evalBody env L body {} n := by rw [evalE.eq_7]
+
+/-! ## The loops -/
+
+theorem fields_loop {mask : List Bool} (hExp : ∀ i, exportedAt mask i = true) {n0 : Nat} (k : G τ)
+    (a : Nat) (keys : List (Nat × Val)) : ∀ (fs : Ty) (xs pre : Val) (n : Nat),
+    fieldsHaveType env fs xs = true → finiteFloats xs = true →
+    (∀ z, sizeOf z < sizeOf xs → P env L z) → n0 ≤ n →
+    ∃ ys n', n ≤ n' ∧ FldRel env n0 fs xs ys ∧
+      evalBody env L (fieldsG env L fs mask xs pre.slen k)
+          ⟨.ptr a (.struct (sapp pre (zeroFields env fs))), keys⟩ n
+        = evalBody env L k ⟨.ptr a (.struct (sapp pre ys)), keys⟩ n' := by
+  intro fs
+  induction fs with
+  | fnil =>
+    intro xs pre n ht _ _ _
+    cases xs <;> simp [fieldsHaveType] at ht
+    exact ⟨.snil, n, Nat.le_refl _, by simp [FldRel], by rw [fieldsG.eq_def]; rfl⟩
+  | fcons F rest _ ihr =>
+    intro xs pre n ht hfin hP hn
+    cases xs with
+    | scons x r =>
+      rw [fieldsHaveType.eq_def] at ht
+      simp only [Bool.and_eq_true] at ht
+      obtain ⟨hf1, hf2⟩ := finite_scons hfin
+      have hPr : ∀ z, sizeOf z < sizeOf r → P env L z := fun z hz => hP z (by simp; omega)
+      rw [fieldsG.eq_1, evalBody.eq_1]
+      rcases (hP x (by simp; omega)).field F n0 ht.1 hf1 with ⟨hskip, hz, hrel⟩ | ⟨e, he, hok⟩
+      · -- nil component: nothing printed, the zero value stays
+        rw [hskip, evalStmt.eq_1]
+        simp only [Res.bind_ok]
+        obtain ⟨ys, n', hn', hrs, hev⟩ := ihr r (sapp pre (.scons .nilv .snil)) n ht.2 hf2 hPr hn
+        refine ⟨.scons .nilv ys, n', hn', by simp [FldRel, hrel, hrs], ?_⟩
+        rw [slen_sapp_single, sapp_single_assoc, sapp_single_assoc] at hev
+        rw [zeroFields, hz]
+        exact hev
+      · obtain ⟨v', n1, hv, hn1, hrel⟩ := hok n hn
+        rw [he, assign, hExp, zeroFields,
+          setField_eval (env := env) (L := L) hv (setNth_sapp v' (zero0 env F) (zeroFields env rest) pre)]
+        simp only [Res.bind_ok]
+        obtain ⟨ys, n', hn', hrs, hev⟩ :=
+          ihr r (sapp pre (.scons v' .snil)) n1 ht.2 hf2 hPr (Nat.le_trans hn hn1)
+        refine ⟨.scons v' ys, n', Nat.le_trans hn1 hn', by simp [FldRel, hrel, hrs], ?_⟩
+        rw [slen_sapp_single, sapp_single_assoc, sapp_single_assoc] at hev
+        exact hev
+    | _ => simp [fieldsHaveType] at ht
+  | _ => intro xs pre n ht; simp [fieldsHaveType] at ht
+
+theorem sreplicate_succ (n : Nat) (z : Val) : sreplicate (n + 1) z = .scons z (sreplicate n z) := rfl
+
+theorem elems_loop {W : Val → Val} (hW : SeqWrap W) {n0 : Nat} (k : G τ) (keys : List (Nat × Val))
+    (E : Ty) (z : Val) : ∀ (xs pre : Val) (n : Nat),
+    allHaveType env E xs = true → finiteFloats xs = true →
+    (∀ y, sizeOf y < sizeOf xs → P env L y) → n0 ≤ n →
+    ∃ ys n', n ≤ n' ∧ SeqRel env n0 E xs ys ∧
+      evalBody env L (elemsG env L E xs pre.slen k) ⟨W (sapp pre (sreplicate xs.slen z)), keys⟩ n
+        = evalBody env L k ⟨W (sapp pre ys), keys⟩ n' := by
+  intro xs
+  induction xs with
+  | snil =>
+    intro pre n _ _ _ _
+    exact ⟨.snil, n, Nat.le_refl _, by simp [SeqRel], by rw [elemsG.eq_def]; rfl⟩
+  | scons x r _ ihr =>
+    intro pre n ht hfin hP hn
+    rw [allHaveType.eq_def] at ht
+    simp only [Bool.and_eq_true] at ht
+    obtain ⟨hf1, hf2⟩ := finite_scons hfin
+    have hPr : ∀ y, sizeOf y < sizeOf r → P env L y := fun y hy => hP y (by simp; omega)
+    obtain ⟨v', n1, hv, hn1, hrel⟩ := (hP x (by simp; omega)).top E n0 ht.1 hf1 {} n hn
+    rw [elemsG.eq_1, evalBody.eq_1, slen_scons, sreplicate_succ,
+      setIndex_eval (env := env) (L := L) hW (by rw [call_eval]; exact hv)
+        (setNth_sapp v' z (sreplicate r.slen z) pre)]
+    simp only [Res.bind_ok]
+    obtain ⟨ys, n', hn', hrs, hev⟩ :=
+      ihr (sapp pre (.scons v' .snil)) n1 ht.2 hf2 hPr (Nat.le_trans hn hn1)
+    refine ⟨.scons v' ys, n', Nat.le_trans hn1 hn', by simp [SeqRel, hrel, hrs], ?_⟩
+    rw [slen_sapp_single, sapp_single_assoc, sapp_single_assoc] at hev
+    exact hev
+  | _ => intro pre n ht; simp [allHaveType] at ht
+
+theorem finite_pair {k v : Val} (h : finiteFloats (.pair k v) = true) :
+    finiteFloats k = true ∧ finiteFloats v = true := by
+  simpa [finiteFloats] using h
+
+/-- one `this[k'] = v'` on a map whose entries are the images of `pre`, for the image of a new key -/
+theorem mapSet_step (hf : env.flagsOk = true) {n0 : Nat} {K V : Ty} (hc : canEqual env K = true)
+    {key v k' v' r pre done : Val} (hk : hasType env K key = true)
+    (hrk : Rel1 env n0 K key k') (hr : EntRel env n0 K V pre done)
+    (hpre : entriesHaveType env K V pre = true)
+    (hd : keysDistinct (sapp pre (.scons (.pair key v) r)) = true) :
+    mapSet k' v' done = sapp done (.scons (.pair k' v') .snil) :=
+  mapSet_fresh done hr.out.1
+    (keyFresh_of_preFresh hf hc hk hrk.1 (goEq_of_rel hf hc hk hrk) pre done hr hpre
+      (preFresh_of_distinct pre hpre hd))
+
+theorem entriesLit_loop (hf : env.flagsOk = true) (hL : L.Round) {n0 : Nat} (k : G τ) (a : Nat)
+    (keys : List (Nat × Val)) (bk : Basic) (V : Ty) : ∀ (es pre done : Val) (n : Nat),
+    entriesHaveType env (.basic bk) V es = true → finiteFloats es = true →
+    (∀ y, sizeOf y < sizeOf es → P env L y) → n0 ≤ n →
+    EntRel env n0 (.basic bk) V pre done → entriesHaveType env (.basic bk) V pre = true →
+    keysDistinct (sapp pre es) = true →
+    ∃ done' n', n ≤ n' ∧ EntRel env n0 (.basic bk) V (sapp pre es) done' ∧
+      evalBody env L (entriesLitG env L bk V es k) ⟨.map a done, keys⟩ n
+        = evalBody env L k ⟨.map a done', keys⟩ n' := by
+  intro es
+  induction es with
+  | snil =>
+    intro pre done n _ _ _ _ hr hpre _
+    refine ⟨done, n, Nat.le_refl _, ?_, by rw [entriesLitG.eq_def]; rfl⟩
+    have : sapp pre .snil = pre := by
+      clear hr
+      induction pre with
+      | scons e t _ iht =>
+        rcases entriesHaveType_inv hpre with h0 | ⟨_, _, _, he, _, _, hr'⟩
+        · cases h0
+        · cases he; rw [sapp_scons, iht hr']
+      | _ => first | rfl | simp [entriesHaveType] at hpre
+    rw [this]; exact hr
+  | scons e r _ ihr =>
+    intro pre done n ht hfin hP hn hr hpre hd
+    rcases entriesHaveType_inv ht with h0 | ⟨key, v, r', he, hk, hv, hrt⟩
+    · cases h0
+    · cases he
+      obtain ⟨hf1, hf2⟩ := finite_scons hfin
+      obtain ⟨hfk, hfv⟩ := finite_pair hf1
+      have hPr : ∀ y, sizeOf y < sizeOf r → P env L y := fun y hy => hP y (by simp; omega)
+      have hkb := hk
+      rw [hasType_basic (b := bk) rfl] at hkb
+      obtain ⟨k', hk', hrk⟩ := leaf_eval (env := env) (n0 := n0) hL hkb hfk n
+      obtain ⟨v', n1, hv', hn1, hrv⟩ := (hP v (by simp; omega)).top V n0 hv hfv {} n hn
+      have hset := mapSet_step (v' := v') hf (by simp [canEqual]) hk hrk hr hpre hd
+      rw [entriesLitG.eq_1, evalBody.eq_1, evalStmt.eq_10, hk']
+      simp only [call_eval, hv', hset, Res.bind_ok]
+      obtain ⟨done', n', hn', hrs, hev⟩ := ihr (sapp pre (.scons (.pair key v) .snil))
+        (sapp done (.scons (.pair k' v') .snil)) n1 hrt hf2 hPr (Nat.le_trans hn hn1)
+        (EntRel.snoc hrk hrv pre done hr) (entriesHaveType_snoc hk hv pre hpre)
+        (by rw [sapp_single_assoc]; exact hd)
+      rw [sapp_single_assoc] at hrs
+      exact ⟨done', n', Nat.le_trans hn1 hn', hrs, hev⟩
+  | _ => intro pre done n ht; simp [entriesHaveType] at ht
+
 end Eval
 
 end GoString
